@@ -84,6 +84,16 @@ theorem decode_encode (m : Msg) (h : WF m) (rest : Bytes) :
     rw [decGroups_encode ns [] rest (by simpa using hnd) (fun p hp => (hwf p hp).2)]
     simp
 
+theorem wfNameBool_iff (s : Bytes) : wfNameBool s = true ↔ WFName s := by
+  simp [wfNameBool, WFName, and_assoc]
+
+theorem wfBool_iff (m : Msg) : wfBool m = true ↔ WF m := by
+  cases m with
+  | request r => rcases r with ⟨_ | n⟩ <;> simp [wfBool, WF]
+  | message m =>
+    simp only [wfBool, WF, Bool.and_eq_true, nodupBool_iff, List.all_eq_true, decide_eq_true_eq,
+      wfNameBool_iff, Bool.not_eq_true', List.isEmpty_eq_false_iff, ne_eq, and_assoc]
+
 /-- the case excluded by `WF`: an empty mapping is sent with no content, which is the "ALL" request -/
 theorem empty_mapping_not_preserved (rest : Bytes) :
     decode (encode (.message ⟨[]⟩) ++ rest) (size (.message ⟨[]⟩)) = .ok (.request ⟨none⟩, rest) := by
